@@ -36,6 +36,20 @@ def gost : Impl :=
     finish := Gost.finish, digest := fun c n => (Gost.digest c).take n, reset := Gost.reset,
     hashLen := hashLen_gost }
 
+/-- enumerator values (pcryptohash.h; generated) of the five types of this family, with their table rows -/
+def codeTable : List (Int × Impl) :=
+  [(typeCode_sha3_224, sha3_224), (typeCode_sha3_256, sha3_256), (typeCode_sha3_384, sha3_384),
+   (typeCode_sha3_512, sha3_512), (typeCode_gost, gost)]
+
+/-- the range test at the top of `p_crypto_hash_new ((PCryptoHashType) c)`: any other integer gives NULL -/
+def typeAccepted (c : Int) : Bool := decide (typeCodeMin ≤ c) && decide (c ≤ typeCodeMax)
+
+/-- the `switch` of `p_crypto_hash_new`, restricted to this family -/
+def implOfCode (c : Int) : Option Impl := (codeTable.find? fun p => p.1 == c).map (·.2)
+
+/-- the answers of the entry points for `hash == NULL`: `get_string`, `*len` of `get_digest`, `get_length`, `get_type` -/
+def nullAnswers : Option String × Nat × Nat × Int := (none, 0, nullLength, nullType)
+
 /-- `PCryptoHash` (non-NULL) -/
 structure Hash (A : Impl) where
   ctx : A.σ
@@ -88,6 +102,15 @@ def getDigest (h : Hash A) (cap : Nat) : Hash A × Nat × Bytes :=
 
 /-- `p_crypto_hash_get_length` -/
 def getLength (_ : Hash A) : Nat := A.hashLen
+
+/-- `p_crypto_hash_update (hash, NULL, len)`: returns before looking at the hash -/
+def updateNull (h : Hash A) (_len : Nat) : Hash A := h
+
+/-- `p_crypto_hash_get_digest (hash, NULL, &len)`: `*len = 0`; not a read, whatever `*len` was -/
+def getDigestNullBuf (h : Hash A) (_cap : Nat) : Hash A × Nat := (h, 0)
+
+/-- `p_crypto_hash_get_digest (hash, buf, NULL)`: returns at once -/
+def getDigestNullLen (h : Hash A) : Hash A := h
 
 end Hash
 end PV.HashX
